@@ -184,7 +184,25 @@ fn process_dir(
     matcher: &dyn matchers::Matcher,
     quit: &mut bool,
 ) -> i32 {
-    let mut walkdir = WalkDir::new(dir)
+    // With contents_first, walkdir yields a starting point that is a symbolic
+    // link followed only because of follow_root_links (-H) at once instead of
+    // after its contents, and then releases every directory below it one level
+    // late. Spelled with a trailing slash the link is a plain directory to
+    // walkdir; the entry for the starting point itself is rebuilt below.
+    let root = std::path::Path::new(dir);
+    let root_is_followed_link = config.depth_first
+        && config.follow == Follow::Roots
+        && !dir.ends_with('/')
+        && root.is_dir()
+        && root
+            .symlink_metadata()
+            .is_ok_and(|m| m.file_type().is_symlink());
+    let walk_root = if root_is_followed_link {
+        format!("{dir}/")
+    } else {
+        dir.to_string()
+    };
+    let mut walkdir = WalkDir::new(walk_root)
         .contents_first(config.depth_first)
         .max_depth(config.max_depth)
         .min_depth(config.min_depth)
@@ -205,7 +223,14 @@ fn process_dir(
     let mut current_dir: Option<PathBuf> = None;
     while let Some(result) = it.next() {
         match WalkEntry::from_walkdir(result, config.follow)
-            .map(|entry| entry.with_starting_point(std::path::Path::new(dir)))
+            .map(|entry| {
+                if root_is_followed_link && entry.depth() == 0 {
+                    WalkEntry::new(dir, 0, config.follow)
+                } else {
+                    entry
+                }
+            })
+            .map(|entry| entry.with_starting_point(root))
         {
             Err(err) => {
                 ret = 1;
